@@ -339,6 +339,25 @@ class _MultiplicationFunctionMaker(_OperationFunctionMaker):
 
         return super()._compute_name()
 
+    @staticmethod
+    def __get_column(output_value: OutputType) -> OutputType:
+        """Return a vector output value as a column.
+
+        So that multiplying a Jacobian matrix by this value scales its rows,
+        i.e. the i-th row of the Jacobian is multiplied by the i-th output component.
+
+        Args:
+            output_value: The output value of a function.
+
+        Returns:
+            The output value as a column if it has several components,
+            otherwise the output value unchanged.
+        """
+        if isinstance(output_value, ndarray) and output_value.size > 1:
+            return output_value.reshape((-1, 1))
+
+        return output_value
+
     def _compute_operation_jacobian(self, input_value: NumberArray) -> NumberArray:
         first_jac = self._first_operand._jac(input_value)
         if self._second_operand_is_number:
@@ -350,8 +369,8 @@ class _MultiplicationFunctionMaker(_OperationFunctionMaker):
                 tile(self._second_operand, (atleast_2d(first_jac).shape[1], 1)).T,
             )
 
-        first_func = self._first_operand.func(input_value)
-        second_func = self._second_operand.func(input_value)
+        first_func = self.__get_column(self._first_operand.func(input_value))
+        second_func = self.__get_column(self._second_operand.func(input_value))
         second_jac = self._second_operand._jac(input_value)
 
         if self._operator == numpy.multiply:
